@@ -31,15 +31,17 @@ NoDupHashes(js) == \A i, k \in 1..Len(js) : js[i].h = js[k].h => i = k
 
 RECURSIVE SumLen(_, _, _)
 SumLen(cs, a, b) == IF a > b THEN 0 ELSE cs[a][2] + SumLen(cs, a + 1, b)
-RECURSIVE SumSegs(_, _)
-SumSegs(segs, i) == IF i > Len(segs) THEN 0 ELSE segs[i][4] + SumSegs(segs, i + 1)
-RECURSIVE MatOver(_, _)
-MatOver(s, S) == IF S = {} THEN 0 ELSE LET h == CHOOSE h \in S : TRUE IN SumSegs(s.files[h].segs, 1) + MatOver(s, S \ {h})
+\* byte counts of file segments are 32-bit and their totals 64-bit: TLC integers are 32-bit, so a segment carries its
+\* size as two 16-bit limbs (segs[i][4] low, segs[i][5] high) and totals are <<low limb, rest>> after carrying
+RECURSIVE SumSegs(_, _, _)
+SumSegs(segs, i, k) == IF i > Len(segs) THEN 0 ELSE segs[i][k] + SumSegs(segs, i + 1, k)
+RECURSIVE MatOver(_, _, _)
+MatOver(s, S, k) == IF S = {} THEN 0 ELSE LET h == CHOOSE h \in S : TRUE IN SumSegs(s.files[h].segs, 1, k) + MatOver(s, S \ {h}, k)
 RECURSIVE StoOver(_, _)
 StoOver(s, S) == IF S = {} THEN 0 ELSE LET h == CHOOSE h \in S : TRUE IN SumLen(s.xorbs[h], 1, Len(s.xorbs[h])) + StoOver(s, S \ {h})
 RECURSIVE CntOver(_, _)
 CntOver(s, S) == IF S = {} THEN 0 ELSE LET h == CHOOSE h \in S : TRUE IN Len(s.xorbs[h]) + CntOver(s, S \ {h})
-Materialized(s) == MatOver(s, DOMAIN s.files)
+Materialized(s) == LET lo == MatOver(s, DOMAIN s.files, 4) hi == MatOver(s, DOMAIN s.files, 5) IN <<lo % 65536, hi + (lo \div 65536)>>
 Stored(s) == StoOver(s, DOMAIN s.xorbs)
 
 TraceInit == sh = <<>> /\ l = 2
@@ -70,13 +72,14 @@ TrLookup ==
 
 TrScan ==
   /\ IsEvent("ShScan") /\ R.sid \in DOMAIN sh
-  /\ LET s == sh[R.sid] skip == R.reader # "seek" IN
+  /\ LET s == sh[R.sid] skip == R.reader \notin {"seek", "minimal_reser"} IN
      /\ NoDupHashes(R.files) /\ NoDupHashes(R.xorbs)
      /\ {R.files[i].h : i \in 1..Len(R.files)} = DOMAIN s.files
      /\ {R.xorbs[i].h : i \in 1..Len(R.xorbs)} = DOMAIN s.xorbs
      /\ \A i \in 1..Len(R.files) : RecEq(s.files[R.files[i].h], R.files[i], skip)
      /\ \A i \in 1..Len(R.xorbs) : XorbEq(s.xorbs[R.xorbs[i].h], R.xorbs[i])
-     /\ R.reader = "seek" => R.materialized = Materialized(s) /\ R.stored = Stored(s)
+     \* totals of the footer: as read, and as re-computed when the minimal reader writes the shard out again
+     /\ R.reader \in {"seek", "minimal_reser"} => R.materialized = Materialized(s) /\ R.stored = Stored(s)
   /\ UNCHANGED sh
 
 TrSizes ==
